@@ -706,6 +706,43 @@ def prop_reported(case):
     return {"nontrivial": bool(nontrivial or (kind != "decay" and len(comps) >= 3)), "tags": tags}
 
 
+# ------------------------------------------------------------------------------------------
+# sub-check: long time axes
+
+
+def long_axis_cases():
+    return st.tuples(st.one_of(decay_cases(), seqpar_cases()), st.sampled_from([1025, 1500, 2500, 4097, 5000, 9000]), st.integers(0, 10**6)).map(
+        lambda t: {**t[0], "long_n": t[1], "pick_seed": t[2]})
+
+
+def prop_long_axis(case):
+    """Thousands of time points (beyond any block / buffer size an implementation may use): every row equals the row computed
+    for the same time point on a short axis that holds only a few of the points (no closed form needed)."""
+    use_time_repr({})
+    if case.get("kind") in ("sequential", "parallel"):
+        model, params = simple_spec("decay-" + case["kind"], list(case["compartments"]), [float(r) for r in case["rates"]])
+    else:
+        model, params = decay_spec(case)
+    tmax = max([float(t) for t in case["times"]] + [1e-3])
+    n = int(case["long_n"])
+    times = np.linspace(0.0, tmax, n)
+    rng = np.random.default_rng([case["pick_seed"], n])
+    idx = sorted(set(rng.integers(0, n, 24).tolist()) | {i for i in (0, 1023, 1024, 1025, 2047, 2048, 4095, 4096, 4097, 8191, 8192, n - 2, n - 1) if i < n})
+    labels_l, full = matrix_of(model, params, times, "long_axis.call")
+    labels_s, part = matrix_of(model, params, times[idx], "long_axis.call_short")
+    check(labels_l == labels_s, "long_axis.labels", lambda: f"{labels_l} vs {labels_s}")
+    sel = full[..., idx, :]
+    check(sel.shape == part.shape, "long_axis.shape", lambda: f"{sel.shape} vs {part.shape}")
+    check(bool(np.array_equal(np.isfinite(sel), np.isfinite(part))), "long_axis.finite_pattern", "non-finite entries differ")
+    fin = np.isfinite(sel) & np.isfinite(part)
+    scale = max(float(np.abs(part[fin]).max()) if fin.any() else 0.0, 1e-300)
+    err = np.abs(np.where(fin, sel - part, 0.0))
+    w = np.unravel_index(int(np.argmax(err)), err.shape)
+    check(float(err.max()) <= 1e-12 * scale, "long_axis.row_depends_on_other_points",
+          lambda: f"{n} points: row {idx[w[-2]]} (t={times[idx[w[-2]]]!r}) differs by {float(err.max()):.3e} (scale {scale:.3e}) from the same point on a {len(idx)}-point axis")
+    return {"nontrivial": True, "tags": [f"points_{n}", case.get("kind", "decay")]}
+
+
 PROPERTY = Property(
     id="C04",
     level="exploration",
@@ -725,6 +762,8 @@ PROPERTY = Property(
             doc="decay-sequential / decay-parallel vs oracle and vs general decay with the equivalent K, j"),
         Sub("conservation", prop=prop_conservation, strategy=lambda: with_time_repr(decay_cases(closed=True)), budget={"quick": 640, "thorough": 30000},
             doc="closed systems: total population constant"),
+        Sub("long_axis", prop=prop_long_axis, strategy=long_axis_cases, budget={"quick": 64, "thorough": 3000},
+            doc="time axes of 1025..9000 points: every row equals the row of the same time point on a short axis"),
         Sub("reported", prop=prop_reported, strategy=lambda: reported_cases(), budget={"quick": 400, "thorough": 12000},
             doc="result of a one-evaluation optimize(): concentrations, A-matrix, rates, lifetimes, DAS, K"),
     ],
